@@ -68,7 +68,18 @@ def one_case(ctx, res, stream, fl, verbose, items):
     stored = K.stored_per_side(rep)
     # list and extract
     status_l, out_l = sc.run("-t", True)
-    status_x, out_x, snap = K.extract_tree(sc, verbose)
+    # one case in three extracts over the results of an earlier extraction of other versions of the same files — longer, shorter, of
+    # the same length, empty: what is extracted must still be the stored bytes (seed C02d: a destination opened without truncation)
+    stale = None
+    if ctx.rng.random() < 0.34:
+        stale = {}
+        for side, names in stored.items():
+            for nm in names:
+                if nm in by_name and "/" not in nm and "\x00" not in nm and nm not in (".", ".."):
+                    c = by_name[nm][1]
+                    stale[f"side{side}/{nm}"] = ctx.rng.choice([c + b"STALE TAIL " * 40, c[: len(c) // 2], bytes(len(c)), b"", c + b"\x1a"])
+        res.count("extract_over_earlier_results")
+    status_x, out_x, snap = K.extract_tree(sc, verbose, stale=stale)
     ml, mx = drv([D.model_list(sc.blobs, fl, True, raw), D.model_extract(sc.blobs, fl, verbose, sc.archive, None, raw)])
     ml, mx = D.parse_disk_outcome(ml), D.parse_disk_outcome(mx)
     K.compare_outcome(res, stream, st, case, "list", status_l, out_l, None, ml)
